@@ -342,7 +342,7 @@ def s2c_wide(ctx, cases, tag):
                 clause = 'in_not_boolean' if got not in ('T', 'F') else 'in_not_spec_membership'
                 fnd.add(clause, [c['alt'], ['l', c['seq']]], [short(alt), short(seq)], {'observed': got, 'expected_one_of': c['inw'], 'wide': {'n': c['n'], 'p': c['p']}})
         if c['ifT'] != '' and c['p'] >= 2:
-            ctx.note(('s2c-wide', c['kind'], c['n'], c['p'], repr(c['y'])[:0] + str(k)))
+            ctx.note(('s2c-wide', k))
         if k % 997 == 5:
             ctx.sample({'s2c_wide_case': {kk: c[kk] for kk in ('kind', 'n', 'p', 'ifT', 'ifF', 'rifT', 'rifF', 'inw')}, 'x': short(x, 300), 'y': short(y, 300)})
         ctx.traces += 1
@@ -420,6 +420,103 @@ def random_histories(ctx, nhist):
             except Exception:
                 break                                         # the other object has no such item (any more) / refuses the value
     ctx.evals += len(lines)
+    return lines, meta
+
+
+def _shorter(d):
+    """d with its last item dropped (one row / one key / one cell less), or None"""
+    k, p = d[0], d[1]
+    if k in ('l', 't') and p: return [k, p[:-1]]
+    if k == 'm' and p: return [k, p[:-1]]
+    if k == 'M' and p[1]: return [k, [p[0], p[1][:-1]]]
+    if k == 'a' and len(p[1]) == 1 and p[1][0] >= 1: return [k, [p[0], [p[1][0] - 1], p[2][:-1]]]
+    if k == 'S' and p[2]: return [k, [p[0], p[1][:-1], p[2][:-1]]]
+    if k == 'F' and p[1] and p[2]: return [k, [p[0], p[1][:-1], p[2], p[3][:-len(p[2])]]]
+    return None
+
+
+def _box(kind, members):
+    n = len(members)
+    keyed = [['k%02d' % (i + 1), m] for i, m in enumerate(members)]
+    if kind == 'l': return ['l', members]
+    if kind == 't': return ['t', members]
+    if kind == 'm': return ['m', keyed]
+    if kind == 'M': return ['M', ['Dict', keyed]]
+    if kind == 'a': return ['a', ['object', [n], members]]
+    if kind == 'S': return ['S', ['object', [I(i) for i in range(n)], members]]
+    if kind == 'll': return ['l', [I(0), ['l', members]]]
+    if kind == 'mt': return ['m', [['a', ['t', members]], ['b', I(0)]]]
+    raise Machinery('unknown box %r' % kind)
+
+
+def random_wide_and_sessions(ctx, nwide, nsess):
+    """C2S, logged as `call` lines (judged by Trace_Eq!CallVerdict against what is pinned for the two descriptors):
+    * WIDE: a random member repeated 6 .. 14 times in a random container kind, in y one position (any, often a late one)
+      holds a near variant of the member (another cell, another type, another realisation, a nudged float, another
+      missing marker); eq(x, y) and eq(y, x);
+    * SESSIONS: a random value, its copy, the value with its last item dropped and a near variant - objects that collide
+      on class / length - and 6 calls eq(obj_i, obj_j) on random pairs (also the very same object) with nothing in between."""
+    from pyg_base import eq
+    g = Gen(ctx.rng)
+    g.nan = 5000
+    lines, meta = [], []
+    made = tries = 0
+    while made < nwide and tries < 50 * nwide + 100:
+        tries += 1
+        d = g.value(ctx.rng.choice([1, 1, 2]))
+        if not nontrivial(d) and ctx.rng.random() < 0.7:
+            continue
+        alts = [r for r in (g.reorder(d), g.rehouse(d), g.missing(d), g.near(d), g.lenient(d), _shorter(d)) if r is not None] + g.variants(d) + [g.other(d)]
+        alt = ctx.rng.choice(alts)
+        n = ctx.rng.choice([6, 7, 8, 9, 10, 11, 12, 14])
+        p = ctx.rng.choice([0, ctx.rng.randrange(1, n + 1), ctx.rng.randrange(max(1, n - 3), n + 1), n])
+        kind = ctx.rng.choice(['l', 'l', 't', 'm', 'm', 'M', 'a', 'S', 'll', 'mt'])
+        dx, dy = _box(kind, [d] * n), _box(kind, [alt if i + 1 == p else d for i in range(n)])
+        heap = Heap()
+        ix, iy = Ids(heap), Ids(heap)
+        try:
+            x, y = realise(dx, ix), realise(dy, iy)
+            px, py = project(x, ix), project(y, iy)
+        except (ValueError, TypeError, OverflowError):
+            continue                                          # numpy refuses the member as a cell of an object array
+        if has_tag(px, ('o',)) or has_tag(py, ('o',)):
+            continue
+        made += 1
+        for step, (a, b, da, db) in enumerate(((x, y, px, py), (y, x, py, px))):
+            lines.append({'op': 'call', 'h': 100000 + made, 'step': step, 'x': renumber(da, 10000), 'y': renumber(db, 20000), 'out': outcome(eq, a, b),
+                          'wide': '%s:%d:%d' % (kind, n, p)})
+            meta.append((short(a), short(b)))
+    nw = len(lines)
+    made = tries = 0
+    while made < nsess and tries < 50 * nsess + 100:
+        tries += 1
+        d = g.value(ctx.rng.choice([1, 2, 2]))
+        if not nontrivial(d) or has_tag(d, ('v', 'Sv', 'Fv')):
+            continue
+        ds = [d, d] + [r for r in (_shorter(d),) if r is not None]
+        vs = g.variants(d) + [r for r in (g.near(d), g.missing(d), g.lenient(d)) if r is not None]
+        if vs:
+            ds.append(ctx.rng.choice(vs))
+        heap = Heap()
+        idss = [Ids(heap) for _ in ds]
+        try:
+            objs = [realise(x, ids) for x, ids in zip(ds, idss)]
+        except (ValueError, TypeError, OverflowError):
+            continue
+        made += 1
+        for step in range(6):
+            i, j = ctx.rng.randrange(len(objs)), ctx.rng.randrange(len(objs))
+            dx, dy = project(objs[i], idss[i]), project(objs[j], idss[j])
+            if i == j:                                        # the very same object: the same NaN objects on both sides
+                lines.append({'op': 'call', 'h': 200000 + made, 'step': step, 'x': renumber(dx, 10000), 'y': renumber(dy, 10000), 'out': outcome(eq, objs[i], objs[j])})
+            else:
+                lines.append({'op': 'call', 'h': 200000 + made, 'step': step, 'x': renumber(dx, 10000), 'y': renumber(dy, 20000), 'out': outcome(eq, objs[i], objs[j])})
+            meta.append((short(objs[i]), short(objs[j])))
+    ctx.evals += len(lines)
+    ctx.extra['c14_c2s_wide_and_sessions'] = {'wide_calls': nw, 'wide_calls_answered_F': sum(1 for l in lines[:nw] if l['out'] == 'F'),
+                                              'session_calls': len(lines) - nw, 'session_calls_answered_T': sum(1 for l in lines[nw:] if l['out'] == 'T')}
+    if nwide and (nw == 0 or len(lines) == nw):
+        raise Machinery('vacuous: no random wide container / no random session was built')
     return lines, meta
 
 
@@ -972,6 +1069,9 @@ def c2s(ctx, base, nrandom, nin, descs=None, nhist=0):
     obs += ins
     ctx.evals += len(ins)
     calls, calls_meta = random_histories(ctx, nhist) if nhist else ([], [])
+    if nhist:
+        more_calls, more_meta = random_wide_and_sessions(ctx, nhist, nhist // 2)
+        calls, calls_meta = calls + more_calls, calls_meta + more_meta
     first_call = len(obs)
     obs += calls
     # operands afterwards: eq / in_ must not have modified anything
@@ -1078,9 +1178,20 @@ def run(ctx):
     ctx.mc('MC_EqHist', 'MC_EqHist_quick.cfg' if ctx.quick else 'MC_EqHist_thorough.cfg')
     if not ctx.quick:
         ctx.mc('MC_EqHist', 'MC_EqHist_memo.cfg', must_fail='MemoAdmitted')
+        ctx.mc('MC_EqHist', 'MC_EqHist_cmemo.cfg', must_fail='ClassMemoAdmitted')
+    # wide containers: the walk over the members accumulates the law; an address-keyed memo fed with recycled temporaries is refuted
+    if not ctx.quick:
+        ctx.mc('MC_EqWide', 'MC_EqWide_thorough.cfg')
+        ctx.mc('MC_EqWide', 'MC_EqWide_memo.cfg', must_fail='MemoWalkSound')
+    # sessions first: what a call answers may not depend on what was compared before it - the histories are replayed before
+    # the process has seen any other comparison of the run
+    s2c_hist(ctx, ctx.generate('MC_EqHist', 'MC_EqHist_gen3.cfg' if ctx.quick else 'MC_EqHist_gen5.cfg'))
+    if not ctx.quick:
+        s2c_hist(ctx, ctx.generate('MC_EqHist', 'MC_EqHist_sim.cfg', simulate=1500, depth=9, seed=ctx.seed + 1, workers=1), tag='sim')
+    # (the generator run checks the clauses of MC_EqWide on every case it prints)
+    s2c_wide(ctx, ctx.generate('MC_EqWide', 'MC_EqWide_gen.cfg' if ctx.quick else 'MC_EqWide_gent.cfg'), 'wide')
     base = s2c(ctx, ctx.generate('MC_Eq', 'MC_Eq_gen1.cfg' if ctx.quick else 'MC_Eq_gen3.cfg'), 'eq')
     s2c_in(ctx, ctx.generate('MC_Eq', 'MC_Eq_genin.cfg' if ctx.quick else 'MC_Eq_genin_thorough.cfg'))
-    s2c_hist(ctx, ctx.generate('MC_EqHist', 'MC_EqHist_gen3.cfg' if ctx.quick else 'MC_EqHist_gen5.cfg'))
     c2s(ctx, base, 50 if ctx.quick else 110, 300 if ctx.quick else 3000, nhist=150 if ctx.quick else 1500)
     ctx.exhaustive = False
     ctx.assumptions += [
